@@ -31,8 +31,8 @@ RULE = ("fn 4 setup: one logical channel is created against a peer that answers 
         "response to its final DONE with NextPackage, then closes its channel (channel 0 by logout); random Gosched. The peer multiplexes: it answers each message with a "
         "generated response cut into packets, feeds the pending packets of all channels in random interleaving, re-announces the packet size in a third of the responses, "
         "sends up to 5 packets for channel ids that do not exist. The recorded history (ids returned, per channel: messages sent, packets the peer sent, packages "
-        "delivered, the client's writes carrying that id, connection errors seen) is the input of the predicates. Quick: 198 concurrent histories + 108 under -race; "
-        "thorough: 3960 + 1080. A seed reproduces the generator choices, not the schedule. Non-trivial = input longer than 60 characters; distinct by (fn, input).")
+        "delivered, the client's writes carrying that id, connection errors seen) is the input of the predicates; in front of these, creation storms (16 goroutines released "
+        "together into NewChannel, nothing else). Quick: 800 routing + 400 sending cases, 242 concurrent histories + 132 under -race; thorough: 8000 + 4000, 4840 + 1320. A seed reproduces the generator choices, not the schedule. Non-trivial = input longer than 60 characters; distinct by (fn, input).")
 TRUSTED = ["Coq 8.16.1 kernel + vm_compute (no native_compute)",
            "hand-written models coq/theories/C12/Model.v (routing, allocation steps, multiplexed sending, setup) over Rx/Model.v (receive path of one channel) and "
            "C01/Model.v + C15/Model.v (send path, packet queue), tied to the code by this correspondence and by those of C01/C02/C03/C11/C15",
@@ -44,7 +44,7 @@ ASSUMPTIONS = ["sync.RWMutex gives mutual exclusion (a thread that does not hold
                "atomic.AddUint32 and the map operations are single steps; the reader's lookups under the read lock do not change the state and are omitted",
                "one transport Write per packet is atomic (net.Conn / tls.Conn serialise concurrent writes); a channel is used by ONE goroutine at a time (the library's design: "
                "sender state is only protected by a read lock) - several channels are used concurrently",
-               "a Gallina model cannot exhibit data races or real schedules: 'without data races' is observed only - 306 (quick) histories and all sequential families run "
+               "a Gallina model cannot exhibit data races or real schedules: 'without data races' is observed only - the concurrent histories (132 quick / 1320 thorough) and a tenth of the sequential families run "
                "again under the Go race detector, a DATA RACE report is a violation; not provoked: Close / Conn.Close of a channel while another goroutine sends on the SAME channel",
                "the packet size is connection state; in the concurrent histories the server only re-announces the size in force (the value senders load concurrently never "
                "changes, so the recorded writes are schedule-independent); that a new size is used by later messages of every channel is checked sequentially (fn 2)",
